@@ -34,9 +34,9 @@ impl AuthState<Vec<User>> for HState {
 
 #[derive(Clone, Debug, PartialEq)]
 pub enum AOp {
-    CreateUser(u64),             // password index
+    CreateUser(Pw),              // password
     RemoveUser(u64),             // uid index
-    Verify(u64, u64),            // uid index, password index
+    Verify(u64, Pw),             // uid index, password
     Exists(u64),
     CreateSession(u64),
     CreateSessionLifetime(u64, u64),
@@ -60,12 +60,218 @@ fn pepper_bytes(p: u64) -> Option<Vec<u8>> {
     if p == 0 { None } else { Some(format!("pepper-{}", p).into_bytes()) }
 }
 
+/// The small pool of short passwords of the random sequences (and the meaning of a decimal password field in
+/// lines written before passwords were carried in the line itself).
 fn password(p: u64) -> String {
     match p {
         0 => "correct horse battery staple".into(),
         1 => "pässwörd-1".into(),
         n => format!("password-{}", n),
     }
+}
+
+/// A password as handed to the real code. In a case line it is `x` + lower-case hex of its UTF-8 bytes (the Lean
+/// side compares these fields as strings: equal field = equal password); a decimal field is the pool index above.
+#[derive(Clone, Debug, PartialEq, Eq, Hash)]
+pub struct Pw(pub String);
+
+impl Pw {
+    fn pool(p: u64) -> Pw {
+        Pw(password(p))
+    }
+    fn field(&self) -> String {
+        format!("x{}", hex(self.0.as_bytes()))
+    }
+    fn parse(s: &str) -> Option<Pw> {
+        if let Some(h) = s.strip_prefix('x') {
+            if h.len() % 2 != 0 || !h.bytes().all(|b| b.is_ascii_digit() || (b'a'..=b'f').contains(&b)) {
+                return None;
+            }
+            String::from_utf8(unhex(h)).ok().map(Pw)
+        } else {
+            s.parse::<u64>().ok().map(Pw::pool)
+        }
+    }
+}
+
+/// A pepper field: `0` = none, `x<hex>` = these bytes, another decimal `n` = `pepper-n`.
+fn pep_parse(s: &str) -> Option<Option<Vec<u8>>> {
+    if let Some(h) = s.strip_prefix('x') {
+        if h.is_empty() || h.len() % 2 != 0 || !h.bytes().all(|b| b.is_ascii_digit() || (b'a'..=b'f').contains(&b)) {
+            return None;
+        }
+        Some(Some(unhex(h)))
+    } else {
+        s.parse::<u64>().ok().map(pepper_bytes)
+    }
+}
+
+fn pep_field(p: &Option<Vec<u8>>) -> String {
+    match p {
+        None => "0".into(),
+        Some(b) => format!("x{}", hex(b)),
+    }
+}
+
+/// The neighbour of a character: code point with the lowest bit flipped. For a multi-byte character only the LAST
+/// byte of its encoding changes, so a byte-length cut inside the character leaves two equal prefixes.
+fn sib(c: char) -> char {
+    char::from_u32(c as u32 ^ 1).unwrap_or('?')
+}
+
+fn swapcase(c: char) -> char {
+    if c.is_ascii_lowercase() { c.to_ascii_uppercase() } else { c.to_ascii_lowercase() }
+}
+
+pub const FAM_ASCII: u64 = 0;
+pub const FAM_MULTI: u64 = 1;
+pub const FAM_NUL: u64 = 2;
+
+/// The base password of family `fam`, content stream `stream`, exactly `len` BYTES long.
+/// * ASCII: letters drawn from a fixed pseudo-random stream (the password of length n is a proper prefix of the one of
+///   length n+1);
+/// * MULTI: 1/2/3/4-byte characters in rotation, ending in a multi-byte character whenever `len >= 2`;
+/// * NUL: the ASCII stream with NUL bytes inside (every fifth byte from offset 3; a short one ends in NUL).
+fn base_pw(fam: u64, stream: u64, len: usize) -> String {
+    let mut rng = Rng::new(0xA5C1_1000 + stream * 7919);
+    let letter = |rng: &mut Rng| -> char {
+        let k = rng.below(52) as u8;
+        (if k < 26 { b'a' + k } else { b'A' + k - 26 }) as char
+    };
+    match fam {
+        FAM_MULTI => {
+            const ROT: [char; 8] = ['é', '€', 'a', '𝄞', 'ß', '日', 'Z', 'ж'];
+            let mut s = String::with_capacity(len);
+            let mut i = stream as usize;
+            while len - s.len() > 4 {
+                let c = ROT[i % ROT.len()];
+                i += 1;
+                if s.len() + c.len_utf8() + 2 <= len {
+                    s.push(c);
+                }
+            }
+            match len - s.len() {
+                0 => {}
+                1 => s.push('a'),
+                2 => s.push('é'),
+                3 => s.push('€'),
+                _ => s.push('𝄞'),
+            }
+            s
+        }
+        FAM_NUL => {
+            let mut s: String = (0..len).map(|i| if i % 5 == 3 { '\0' } else { letter(&mut rng) }).collect();
+            if len >= 1 && !s.contains('\0') {
+                s.pop();
+                s.push('\0');
+            }
+            s
+        }
+        _ => (0..len).map(|_| letter(&mut rng)).collect(),
+    }
+}
+
+/// Named near-misses of the password `x`: every one differs from `x` (and from the others) as a byte string.
+/// `extra_pos` = further character positions at which a single character is changed.
+fn pw_variants(x: &str, extra_pos: &[usize]) -> Vec<(&'static str, String)> {
+    let cs: Vec<char> = x.chars().collect();
+    let n = cs.len();
+    let with = |i: usize, f: &dyn Fn(char) -> char| -> String {
+        cs.iter().enumerate().map(|(j, c)| if j == i { f(*c) } else { *c }).collect()
+    };
+    let mut v: Vec<(&'static str, String)> = Vec::new();
+    if n >= 1 {
+        v.push(("last-char", with(n - 1, &sib)));
+        v.push(("first-char", with(0, &sib)));
+        v.push(("drop-last(proper-prefix)", cs[..n - 1].iter().collect()));
+        v.push(("drop-first(proper-suffix)", cs[1..].iter().collect()));
+        v.push(("doubled", format!("{}{}", x, x)));
+    }
+    if n >= 3 {
+        v.push(("middle-char", with(n / 2, &sib)));
+        v.push(("first-half", cs[..n / 2].iter().collect()));
+    }
+    v.push(("append-char", format!("{}x", x)));
+    v.push(("append-nul", format!("{}\0", x)));
+    v.push(("append-space", format!("{} ", x)));
+    v.push(("prepend-space", format!(" {}", x)));
+    v.push(("prepend-char", format!("y{}", x)));
+    v.push(("append-multibyte", format!("{}é", x)));
+    if let Some(i) = cs.iter().rposition(|c| c.is_ascii_alphabetic()) {
+        v.push(("case-last-letter", with(i, &swapcase)));
+    }
+    if let Some(i) = cs.iter().position(|c| c.is_ascii_alphabetic()) {
+        v.push(("case-first-letter", with(i, &swapcase)));
+        v.push(("case-all", cs.iter().map(|c| swapcase(*c)).collect()));
+    }
+    if let Some(i) = cs.iter().position(|c| *c == '\0') {
+        v.push(("cut-at-nul", cs[..i].iter().collect()));
+        v.push(("nul-to-space", with(i, &|_| ' ')));
+        v.push(("strip-nul", cs.iter().filter(|c| **c != '\0').collect()));
+    }
+    if let Some(i) = cs.iter().position(|c| *c == 'é') {
+        // canonically equivalent (NFD) spelling: a different password
+        let mut s: String = cs[..i].iter().collect();
+        s.push_str("e\u{301}");
+        s.extend(cs[i + 1..].iter());
+        v.push(("nfd-spelling", s));
+    }
+    for p in extra_pos {
+        if *p < n {
+            v.push(("one-char-at-random-position", with(*p, &sib)));
+        }
+    }
+    let mut seen: HashSet<String> = HashSet::new();
+    seen.insert(x.to_string());
+    v.retain(|(_, s)| seen.insert(s.clone()));
+    v
+}
+
+/// A string that differs from the secret `t` (a token or a uid) and is close to it. `code`:
+/// 0..=99 one character replaced at that position, 100..=199 proper prefix of that length, 200..=299 one character
+/// upper-cased (replaced if it has no upper case), 300.. extensions / whitespace / NUL / case / suffix.
+/// Codes for which `derived_plain(code)` holds contain no whitespace / control characters (usable in a Cookie header).
+fn derive_secret(t: &str, code: u64) -> String {
+    let cs: Vec<char> = t.chars().collect();
+    let n = cs.len();
+    let flip = |c: char| -> char {
+        match c.to_digit(16) {
+            Some(d) if !c.is_ascii_uppercase() => char::from_digit(d ^ 1, 16).unwrap(),
+            _ => '0',
+        }
+    };
+    let with = |i: usize, f: &dyn Fn(char) -> char| -> String {
+        cs.iter().enumerate().map(|(j, c)| if j == i { f(*c) } else { *c }).collect()
+    };
+    let r: String = match code {
+        0..=99 if (code as usize) < n => with(code as usize, &flip),
+        100..=199 if ((code - 100) as usize) < n => cs[..(code - 100) as usize].iter().collect(),
+        200..=299 if ((code - 200) as usize) < n => {
+            with((code - 200) as usize, &|c| if c.is_ascii_lowercase() { c.to_ascii_uppercase() } else { flip(c) })
+        }
+        300 => format!("{}0", t),
+        301 => format!("{}\0", t),
+        302 => format!("{} ", t),
+        303 => format!(" {}", t),
+        304 => format!("{}{}", t, t),
+        305 => t.to_uppercase(),
+        306 => cs.iter().skip(1).collect(),
+        307 => format!("0{}", t),
+        308 => format!("{}\n", t),
+        309 => format!("{}\t", t),
+        _ => format!("{}f", t),
+    };
+    if r == t { format!("{}#", t) } else { r }
+}
+
+fn derived_plain(code: u64) -> bool {
+    !matches!(code, 301 | 302 | 303 | 308 | 309)
+}
+
+const DERIVED: u64 = 10_000;
+
+fn derived(base: u64, code: u64) -> u64 {
+    DERIVED + base * 1000 + code
 }
 
 fn err_name(e: &AuthError) -> &'static str {
@@ -93,9 +299,9 @@ fn uid_format_ok(u: &str) -> bool {
         && matches!(b[19], b'8' | b'9' | b'a' | b'b')
 }
 
-/// Pre-created users (Argon2 is ~30 ms per hash): `(user, password index)` per pepper.
+/// Pre-created users (Argon2 is ~10-30 ms per hash): `(user, password)` per pepper.
 pub struct Pool {
-    users: BTreeMap<u64, Vec<(User, u64)>>,
+    users: BTreeMap<u64, Vec<(User, Pw)>>,
 }
 
 const POOL_PW: [u64; 5] = [0, 1, 0, 2, 3];
@@ -104,11 +310,11 @@ impl Pool {
     fn new() -> Self {
         Pool { users: BTreeMap::new() }
     }
-    fn get(&mut self, pepper: u64, k: usize) -> Vec<(User, u64)> {
+    fn get(&mut self, pepper: u64, k: usize) -> Vec<(User, Pw)> {
         let v = self.users.entry(pepper).or_insert_with(|| {
             POOL_PW
                 .iter()
-                .map(|p| (User::create(password(*p), pepper_bytes(pepper).as_deref()).unwrap(), *p))
+                .map(|p| (User::create(password(*p), pepper_bytes(pepper).as_deref()).unwrap(), Pw::pool(*p)))
                 .collect()
         });
         v[..k].to_vec()
@@ -121,6 +327,9 @@ struct Runner {
     uids: Vec<String>,
     toks: Vec<String>,
     now: u64,
+    /// false: a sequence of user / password operations only, which never reads the clock (several of these run in
+    /// parallel, so `VERIF_NOW` is left alone)
+    clock: bool,
     fmt: Vec<String>,
     ops: Vec<String>,
     outs: Vec<String>,
@@ -133,6 +342,10 @@ impl Runner {
             900 => String::new(),
             901 => "00000000-0000-4000-8000-000000000000".into(),
             902 => "nobody".into(),
+            i if i >= DERIVED => match self.uids.get(((i - DERIVED) / 1000) as usize) {
+                Some(u) => derive_secret(u, (i - DERIVED) % 1000),
+                None => format!("unknown-uid-{}", i),
+            },
             i if (i as usize) < self.uids.len() => self.uids[i as usize].clone(),
             i => format!("unknown-uid-{}", i),
         }
@@ -143,6 +356,10 @@ impl Runner {
             901 => "0".repeat(64),
             902 => "deadbeef".into(),
             903 => self.toks.first().map(|t| t.to_uppercase()).unwrap_or_else(|| "ABC".into()),
+            i if i >= DERIVED => match self.toks.get(((i - DERIVED) / 1000) as usize) {
+                Some(t) => derive_secret(t, (i - DERIVED) % 1000),
+                None => format!("unknown-token-{}", i),
+            },
             i if (i as usize) < self.toks.len() => self.toks[i as usize].clone(),
             i => format!("unknown-token-{}", i),
         }
@@ -214,6 +431,26 @@ impl Runner {
 
     fn step(&mut self, op: &AOp) {
         let st = self.state.clone();
+        assert!(
+            self.clock || matches!(op, AOp::CreateUser(_) | AOp::Verify(..) | AOp::Exists(_) | AOp::RemoveUser(_)),
+            "clock-free runner used for a session operation"
+        );
+        // a near-miss of a uid / token must not be one of the real values (it is an index the model never issued)
+        match op {
+            AOp::Refresh(t) | AOp::Invalidate(t) | AOp::GetUid(t) | AOp::AuthRoute(Some(t), _) if *t >= DERIVED => {
+                if self.toks.contains(&self.tok(*t)) {
+                    self.fmt.push(format!("derived-token-is-a-real-token:{}", t));
+                }
+            }
+            AOp::RemoveUser(u) | AOp::Verify(u, _) | AOp::Exists(u) | AOp::CreateSession(u) | AOp::CreateSessionLifetime(u, _) | AOp::InvalidateUser(u)
+                if *u >= DERIVED =>
+            {
+                if self.uids.contains(&self.uid(*u)) {
+                    self.fmt.push(format!("derived-uid-is-a-real-uid:{}", u));
+                }
+            }
+            _ => {}
+        }
         let res = |r: Result<String, String>| r.unwrap_or_else(|_| "PANIC".into());
         let (code, opstr, out): (&str, String, String) = match op {
             AOp::Tick(d) => {
@@ -223,7 +460,7 @@ impl Runner {
             }
             AOp::CreateUser(p) => {
                 let next = self.uids.len();
-                let r = guarded(|| st.auth_provider().create_user(password(*p)));
+                let r = guarded(|| st.auth_provider().create_user(&p.0));
                 let out = match r {
                     Ok(Ok(uid)) => {
                         if !uid_format_ok(&uid) {
@@ -243,7 +480,7 @@ impl Runner {
                     Ok(Err(e)) => format!("E:{}", err_name(&e)),
                     Err(_) => "PANIC".into(),
                 };
-                ("cu", format!("cu:{}:{}", p, next), out)
+                ("cu", format!("cu:{}:{}", p.field(), next), out)
             }
             AOp::RemoveUser(u) => {
                 let uid = self.uid(*u);
@@ -255,8 +492,8 @@ impl Runner {
             }
             AOp::Verify(u, p) => {
                 let uid = self.uid(*u);
-                let r = guarded(|| st.auth_provider().verify(&uid, password(*p)));
-                ("vf", format!("vf:{}:{}", u, p), res(r.map(|b| if b { "1".into() } else { "0".into() })))
+                let r = guarded(|| st.auth_provider().verify(&uid, &p.0));
+                ("vf", format!("vf:{}:{}", u, p.field()), res(r.map(|b| if b { "1".into() } else { "0".into() })))
             }
             AOp::Exists(u) => {
                 let uid = self.uid(*u);
@@ -338,8 +575,13 @@ impl Runner {
             _ => out.clone(),
         };
         let tag = match op {
+            AOp::RemoveUser(u) | AOp::Verify(u, _) | AOp::Exists(u) | AOp::CreateSession(u) | AOp::CreateSessionLifetime(u, _) | AOp::InvalidateUser(u)
+                if *u >= DERIVED =>
+            {
+                "[near-miss-uid]"
+            }
             AOp::Refresh(t) | AOp::Invalidate(t) | AOp::GetUid(t) | AOp::AuthRoute(Some(t), _) => {
-                if (*t as usize) < self.toks.len() { "[issued]" } else { "[unknown]" }
+                if *t >= DERIVED { "[near-miss]" } else if (*t as usize) < self.toks.len() { "[issued]" } else { "[unknown]" }
             }
             AOp::AuthRoute(None, _) => "[no-cookie]",
             _ => "",
@@ -352,8 +594,11 @@ impl Runner {
 }
 
 impl Runner {
-    /// A provider over `init` = users present at the start `(user, password index)`.
-    fn new(cfg: &Cfg, init: &[(User, u64)]) -> Runner {
+    /// A provider over `init` = users present at the start `(user, password)`.
+    fn new(cfg: &Cfg, init: &[(User, Pw)]) -> Runner {
+        Runner::new_opt(cfg, init, true)
+    }
+    fn new_opt(cfg: &Cfg, init: &[(User, Pw)], clock: bool) -> Runner {
         let mut config = AuthConfig::default().with_default_lifetime(cfg.dl).with_default_refresh_lifetime(cfg.rl);
         if let Some(p) = pepper_bytes(cfg.pepper) {
             config = config.with_pepper(p);
@@ -363,13 +608,16 @@ impl Runner {
         let app: App<HState> = App::new_with_config(1, HState { auth: Mutex::new(provider) })
             .with_auth_route("/auth", |_req: Request, _state: Arc<HState>, uid: String| Response::new(StatusCode::OK, uid));
         let state = app.get_state();
-        VERIF_NOW.store(cfg.now0, Ordering::SeqCst);
+        if clock {
+            VERIF_NOW.store(cfg.now0, Ordering::SeqCst);
+        }
         let mut r = Runner {
             app,
             state,
             uids: init.iter().map(|(u, _)| u.uid.clone()).collect(),
             toks: Vec::new(),
             now: cfg.now0,
+            clock,
             fmt: Vec::new(),
             ops: Vec::new(),
             outs: Vec::new(),
@@ -388,24 +636,30 @@ impl Runner {
     }
     /// Returns (ops field, output, per-step kinds).
     fn finish(self) -> (String, String, Vec<String>) {
-        VERIF_NOW.store(u64::MAX, Ordering::SeqCst);
+        if self.clock {
+            VERIF_NOW.store(u64::MAX, Ordering::SeqCst);
+        }
         let ops_s = if self.ops.is_empty() { "-".to_string() } else { self.ops.join(";") };
         let fmt = if self.fmt.is_empty() { "ok".to_string() } else { format!("bad:{}", self.fmt.join("|")) };
         (ops_s, format!("{}#fmt={}", self.outs.join(";"), fmt), self.kinds)
     }
 }
 
-fn init_str(init: &[(User, u64)]) -> String {
+fn init_str(init: &[(User, Pw)]) -> String {
     if init.is_empty() {
         "-".to_string()
     } else {
-        init.iter().enumerate().map(|(i, (_, p))| format!("{}:{}", i, p)).collect::<Vec<_>>().join(",")
+        init.iter().enumerate().map(|(i, (_, p))| format!("{}:{}", i, p.field())).collect::<Vec<_>>().join(",")
     }
 }
 
 /// Run one fixed sequence on the real code.
-fn run_seq(cfg: &Cfg, init: Vec<(User, u64)>, ops: &[AOp]) -> (String, String, String, Vec<String>) {
-    let mut r = Runner::new(cfg, &init);
+fn run_seq(cfg: &Cfg, init: Vec<(User, Pw)>, ops: &[AOp]) -> (String, String, String, Vec<String>) {
+    run_seq_opt(cfg, init, ops, true)
+}
+
+fn run_seq_opt(cfg: &Cfg, init: Vec<(User, Pw)>, ops: &[AOp], clock: bool) -> (String, String, String, Vec<String>) {
+    let mut r = Runner::new_opt(cfg, &init, clock);
     for op in ops {
         r.step(op);
     }
@@ -421,9 +675,9 @@ fn parse_op(s: &str) -> Option<AOp> {
     let f: Vec<&str> = s.split(':').collect();
     let n = |i: usize| -> Option<u64> { f.get(i)?.parse().ok() };
     Some(match (f[0], f.len()) {
-        ("cu", 3) => AOp::CreateUser(n(1)?),
+        ("cu", 3) => AOp::CreateUser(Pw::parse(f[1])?),
         ("ru", 2) => AOp::RemoveUser(n(1)?),
-        ("vf", 3) => AOp::Verify(n(1)?, n(2)?),
+        ("vf", 3) => AOp::Verify(n(1)?, Pw::parse(f[2])?),
         ("ex", 2) => AOp::Exists(n(1)?),
         ("cs", 3) => AOp::CreateSession(n(1)?),
         ("cl", 4) => AOp::CreateSessionLifetime(n(1)?, n(2)?),
@@ -450,6 +704,31 @@ fn pepper2(p: u64, p2: u64, pep: u64, pep2: u64) -> String {
     }
 }
 
+/// `User::create(pw, pep)` once, then `verify(pw', pep')` for every pair: one `0`/`1` per pair.
+fn hashc(pw: &Pw, pep: &Option<Vec<u8>>, tries: &[(Pw, Option<Vec<u8>>)]) -> String {
+    let u = match guarded(|| User::create(&pw.0, pep.as_deref())) {
+        Ok(Ok(u)) => u,
+        Ok(Err(e)) => return format!("E:{}", err_name(&e)),
+        Err(_) => return "PANIC".into(),
+    };
+    tries
+        .iter()
+        .map(|(p, q)| match guarded(|| u.verify(&p.0, q.as_deref())) {
+            Ok(true) => "1",
+            Ok(false) => "0",
+            Err(_) => "P",
+        })
+        .collect()
+}
+
+fn hashc_fields(pw: &Pw, pep: &Option<Vec<u8>>, tries: &[(Pw, Option<Vec<u8>>)]) -> [String; 3] {
+    [
+        pw.field(),
+        pep_field(pep),
+        tries.iter().map(|(p, q)| format!("{}:{}", p.field(), pep_field(q))).collect::<Vec<_>>().join(","),
+    ]
+}
+
 /// Re-execute one stored case.
 pub fn exec(f: &[String]) -> Option<String> {
     match (f[0].as_str(), f.len()) {
@@ -463,8 +742,8 @@ pub fn exec(f: &[String]) -> Option<String> {
             if f[2] != "-" {
                 for item in f[2].split(',') {
                     let (_, p) = item.split_once(':')?;
-                    let p: u64 = p.parse().ok()?;
-                    init.push((User::create(password(p), pepper_bytes(cfg.pepper).as_deref()).ok()?, p));
+                    let p = Pw::parse(p)?;
+                    init.push((User::create(&p.0, pepper_bytes(cfg.pepper).as_deref()).ok()?, p));
                 }
             }
             let mut ops = Vec::new();
@@ -483,11 +762,21 @@ pub fn exec(f: &[String]) -> Option<String> {
             }
             Some(pepper2(n[0], n[1], n[2], n[3]))
         }
+        ("hashc", 4) => {
+            let pw = Pw::parse(&f[1])?;
+            let pep = pep_parse(&f[2])?;
+            let mut tries = Vec::new();
+            for item in f[3].split(',') {
+                let (p, q) = item.split_once(':')?;
+                tries.push((Pw::parse(p)?, pep_parse(q)?));
+            }
+            Some(hashc(&pw, &pep, &tries))
+        }
         _ => None,
     }
 }
 
-fn emit(out: &mut Out, cfg: &Cfg, init: Vec<(User, u64)>, ops: &[AOp], class: &str) {
+fn emit(out: &mut Out, cfg: &Cfg, init: Vec<(User, Pw)>, ops: &[AOp], class: &str) {
     let (init_s, ops_s, res, kinds) = run_seq(cfg, init, ops);
     record(out, cfg, &init_s, &ops_s, &res, &kinds, class);
 }
@@ -505,12 +794,14 @@ fn record(out: &mut Out, cfg: &Cfg, init_s: &str, ops_s: &str, res: &str, kinds:
     out.hist.entry("fmt:uids-checked(uuid v4, distinct)".into()).and_modify(|x| *x += created).or_insert(created);
     out.count(if res.ends_with("#fmt=ok") { "fmt:sequence-ok" } else { "fmt:sequence-BAD" });
     let token_ops = kinds.iter().filter(|k| ["rf[", "is[", "gt[", "ar["].iter().any(|p| k.starts_with(p))).count();
-    out.case(&["seq", &cfg_str(cfg), init_s, ops_s], res, issued >= 1 && token_ops >= 1);
+    // password sweeps: a user created and a different password tried on it
+    let pw_pairs = class.starts_with("P:") && created >= 1 && kinds.iter().any(|k| k == "vf=0");
+    out.case(&["seq", &cfg_str(cfg), init_s, ops_s], res, (issued >= 1 && token_ops >= 1) || pw_pairs);
 }
 
 /// Generator state: what the generator believes about the sequence so far (used only to bias choices).
 struct Shadow {
-    users: Vec<u64>,      // password index per uid index
+    users: Vec<Pw>,       // password per uid index
     ntok: u64,
     now: u64,
     last_expiry: u64,
@@ -520,14 +811,14 @@ struct Shadow {
 
 
 #[allow(clippy::too_many_arguments)]
-fn gen_seq(out: &mut Out, rng: &mut Rng, cfg: &Cfg, init: Vec<(User, u64)>, len: usize, max_create: u64, max_verify: u64, class: &str) {
-    let init_pw: Vec<u64> = init.iter().map(|(_, p)| *p).collect();
+fn gen_seq(out: &mut Out, rng: &mut Rng, cfg: &Cfg, init: Vec<(User, Pw)>, len: usize, max_create: u64, max_verify: u64, class: &str) {
+    let init_pw: Vec<Pw> = init.iter().map(|(_, p)| p.clone()).collect();
     let mut sh = Shadow { users: init_pw, ntok: 0, now: cfg.now0, last_expiry: 0, verifies: 0, creates: 0 };
     let mut r = Runner::new(cfg, &init);
     let mut n = 0;
     if sh.users.is_empty() {
-        let p = rng.below(4);
-        r.step(&AOp::CreateUser(p));
+        let p = gen_new_pw(rng);
+        r.step(&AOp::CreateUser(p.clone()));
         sh.users.push(p);
         sh.creates += 1;
         n += 1;
@@ -535,11 +826,16 @@ fn gen_seq(out: &mut Out, rng: &mut Rng, cfg: &Cfg, init: Vec<(User, u64)>, len:
     while n < len {
         sh.ntok = r.toks.len() as u64; // tokens really issued so far
         let pick_uid = |rng: &mut Rng, sh: &Shadow| -> u64 {
-            if rng.chance(1, 12) { 900 + rng.below(3) } else { rng.below(sh.users.len() as u64) }
+            if rng.chance(1, 12) {
+                if rng.chance(1, 2) { 900 + rng.below(3) } else { derived(rng.below(sh.users.len() as u64), gen_code(rng, 36, true)) }
+            } else {
+                rng.below(sh.users.len() as u64)
+            }
         };
         let pick_tok = |rng: &mut Rng, sh: &Shadow| -> u64 {
             if sh.ntok == 0 || rng.chance(1, 10) {
-                900 + rng.below(4)
+                // unknown token: a fixed one, or a near-miss of a token that was really issued
+                if sh.ntok == 0 || rng.chance(1, 2) { 900 + rng.below(4) } else { derived(rng.below(sh.ntok), gen_code(rng, 64, true)) }
             } else if rng.chance(1, 2) {
                 sh.ntok - 1 - rng.below(sh.ntok.min(2))
             } else {
@@ -561,8 +857,8 @@ fn gen_seq(out: &mut Out, rng: &mut Rng, cfg: &Cfg, init: Vec<(User, u64)>, len:
             0..=4 => {
                 if sh.creates < max_create && sh.users.len() < 5 {
                     sh.creates += 1;
-                    let p = rng.below(4);
-                    sh.users.push(p);
+                    let p = gen_new_pw(rng);
+                    sh.users.push(p.clone());
                     AOp::CreateUser(p)
                 } else {
                     AOp::Exists(pick_uid(rng, &sh))
@@ -573,14 +869,22 @@ fn gen_seq(out: &mut Out, rng: &mut Rng, cfg: &Cfg, init: Vec<(User, u64)>, len:
             10..=15 => {
                 let u = pick_uid(rng, &sh);
                 if u >= 900 {
-                    AOp::Verify(u, rng.below(4))
+                    // unknown uid (no hashing happens): the password of the user it is derived from, or any
+                    let p = if u >= DERIVED { sh.users[((u - DERIVED) / 1000) as usize].clone() } else { Pw::pool(rng.below(4)) };
+                    AOp::Verify(u, p)
                 } else if sh.verifies < max_verify {
                     sh.verifies += 1;
-                    let right = sh.users[u as usize];
-                    let p = match rng.below(4) {
+                    let right = sh.users[u as usize].clone();
+                    let p = match rng.below(6) {
                         0 | 1 => right,
-                        2 => *rng.pick(&sh.users), // some (other) user's password
-                        _ => (right + 1 + rng.below(3)) % 5,
+                        2 => rng.pick(&sh.users).clone(), // some (other) user's password
+                        3 => Pw::pool(rng.below(5)),
+                        _ => {
+                            // a near-miss of the right password
+                            let pos = rng.below(right.0.chars().count().max(1) as u64) as usize;
+                            let v = pw_variants(&right.0, &[pos]);
+                            Pw(rng.pick(&v).1.clone())
+                        }
                     };
                     AOp::Verify(u, p)
                 } else {
@@ -643,6 +947,283 @@ fn gen_cfg(rng: &mut Rng) -> Cfg {
     }
 }
 
+/// Password of a user created inside a random sequence: mostly the small pool, sometimes a structured long one.
+fn gen_new_pw(rng: &mut Rng) -> Pw {
+    if rng.chance(3, 4) {
+        Pw::pool(rng.below(4))
+    } else {
+        let len = *rng.pick(&[0usize, 1, 7, 8, 31, 32, 64, 71, 72, 73, 127, 128, 129, 255, 256, 257, 600]);
+        Pw(base_pw(rng.below(3), rng.below(4), len))
+    }
+}
+
+/// A derivation code for a secret of `n` characters (see `derive_secret`).
+fn gen_code(rng: &mut Rng, n: u64, plain: bool) -> u64 {
+    loop {
+        let c = match rng.below(4) {
+            0 => rng.below(n),
+            1 => 100 + rng.below(n),
+            2 => 200 + rng.below(n),
+            _ => 300 + rng.below(10),
+        };
+        if !plain || derived_plain(c) {
+            return c;
+        }
+    }
+}
+
+/// `f` over `items` on up to 8 threads, results in input order.
+fn par_map<T: Sync, R: Send>(items: &[T], f: impl Fn(&T) -> R + Sync) -> Vec<R> {
+    let threads = std::thread::available_parallelism().map(|x| x.get()).unwrap_or(1).clamp(1, 8);
+    let next = std::sync::atomic::AtomicUsize::new(0);
+    let results: Mutex<Vec<Option<R>>> = Mutex::new((0..items.len()).map(|_| None).collect());
+    std::thread::scope(|sc| {
+        for _ in 0..threads {
+            sc.spawn(|| loop {
+                let i = next.fetch_add(1, Ordering::SeqCst);
+                if i >= items.len() {
+                    break;
+                }
+                let r = f(&items[i]);
+                results.lock().unwrap_or_else(|e| e.into_inner())[i] = Some(r);
+            });
+        }
+    });
+    results.into_inner().unwrap_or_else(|e| e.into_inner()).into_iter().map(|r| r.expect("worker result")).collect()
+}
+
+fn len_bucket(n: usize) -> &'static str {
+    match n {
+        0 => "0",
+        1..=15 => "1..15",
+        16..=71 => "16..71",
+        72..=127 => "72..127",
+        128..=255 => "128..255",
+        256..=999 => "256..999",
+        1000..=4095 => "1000..4095",
+        _ => "4096..",
+    }
+}
+
+struct PwJob {
+    cfg: Cfg,
+    ops: Vec<AOp>,
+    tags: Vec<String>,
+}
+
+fn fam_name(fam: u64) -> &'static str {
+    match fam {
+        FAM_MULTI => "multibyte",
+        FAM_NUL => "with-nul",
+        _ => "ascii",
+    }
+}
+
+/// Password sweep (class P): for a base password `x` of every listed byte length and its near-misses `q`:
+/// forward = create a user with `x`, verify `x`, verify every `q`; reverse = create a user per `q` (for the listed
+/// variants), verify `x` and `q` on it.
+fn pw_jobs(thorough: bool, rng: &mut Rng) -> Vec<PwJob> {
+    let span = |a: usize, b: usize| (a..=b).collect::<Vec<usize>>();
+    let cat = |parts: &[Vec<usize>]| parts.concat();
+    let lens: Vec<(u64, Vec<usize>)> = if thorough {
+        vec![
+            (
+                FAM_ASCII,
+                cat(&[
+                    span(0, 136),
+                    vec![140, 150, 160, 191, 192, 193, 200],
+                    span(254, 258),
+                    vec![300, 383, 384, 385, 500, 511, 512, 513, 767, 768, 769, 1000, 1023, 1024, 1025, 2047, 2048, 2049],
+                    vec![4095, 4096, 4097, 8191, 8192, 8193, 10000, 16383, 16384, 16385, 32768, 65535, 65536, 65537],
+                ]),
+            ),
+            (FAM_MULTI, cat(&[span(0, 140), span(255, 259), span(511, 514), span(1000, 1003), span(4095, 4098), vec![10000]])),
+            (FAM_NUL, cat(&[span(1, 70), span(127, 130), span(255, 257), vec![1000, 4096]])),
+        ]
+    } else {
+        vec![
+            (FAM_ASCII, vec![0, 1, 8, 16, 32, 55, 56, 64, 72, 100, 127, 128, 129, 255, 256, 257, 1000, 4096, 10000]),
+            (FAM_MULTI, vec![3, 9, 17, 33, 56, 57, 65, 73, 74, 128, 129, 130, 131, 256, 257, 258, 1000, 4097]),
+            (FAM_NUL, vec![1, 4, 8, 16, 64, 128, 129, 256, 1000]),
+        ]
+    };
+    let quick_skip = ["doubled", "prepend-space", "append-multibyte", "case-all", "case-first-letter"];
+    let reverse_names: &[&str] = if thorough {
+        &["last-char", "first-char", "middle-char", "drop-last(proper-prefix)", "append-char", "append-nul", "case-last-letter", "cut-at-nul"]
+    } else {
+        &["last-char", "drop-last(proper-prefix)", "append-char", "cut-at-nul"]
+    };
+    let base_cfg = Cfg { pepper: 0, dl: 3600, rl: 3600, now0: 5000 };
+    let mut jobs = Vec::new();
+    let mut k = 0u64;
+    for (fam, ls) in &lens {
+        for len in ls {
+            let stream = if thorough { k % 3 } else { 0 };
+            let x = base_pw(*fam, stream, *len);
+            assert_eq!(x.len(), *len, "base password has the byte length asked for");
+            let nchars = x.chars().count();
+            let npos = if thorough { 4 } else { 1 };
+            let extra: Vec<usize> = (0..npos).filter(|_| nchars > 0).map(|_| rng.below(nchars as u64) as usize).collect();
+            let mut vars = pw_variants(&x, &extra);
+            if !thorough {
+                vars.retain(|(name, _)| !quick_skip.contains(name));
+            }
+            let bucket = format!("pwlen:{}:{}", fam_name(*fam), len_bucket(*len));
+            // forward
+            let mut ops = vec![AOp::CreateUser(Pw(x.clone())), AOp::Verify(0, Pw(x.clone()))];
+            let mut tags = vec![bucket.clone(), "pwpair:same-password".to_string()];
+            for (name, q) in &vars {
+                ops.push(AOp::Verify(0, Pw(q.clone())));
+                tags.push(format!("pwpair:{}", name));
+            }
+            jobs.push(PwJob { cfg: Cfg { pepper: k % 2, ..base_cfg.clone() }, ops, tags });
+            // reverse
+            let rev: Vec<&(&'static str, String)> = vars.iter().filter(|(name, _)| reverse_names.contains(name)).collect();
+            if !rev.is_empty() {
+                let mut ops: Vec<AOp> = rev.iter().map(|(_, q)| AOp::CreateUser(Pw(q.clone()))).collect();
+                let mut tags = vec![bucket.clone()];
+                for (i, (name, q)) in rev.iter().enumerate() {
+                    ops.push(AOp::Verify(i as u64, Pw(x.clone())));
+                    ops.push(AOp::Verify(i as u64, Pw(q.clone())));
+                    tags.push(format!("pwpair-reverse:{}", name));
+                }
+                jobs.push(PwJob { cfg: Cfg { pepper: (k + 1) % 2, ..base_cfg.clone() }, ops, tags });
+            }
+            k += 1;
+        }
+    }
+    if thorough {
+        // random (family, stream, length, position) pairs
+        for i in 0..400u64 {
+            let fam = rng.below(3);
+            let len = if rng.chance(1, 4) { rng.range(1, 5000) } else { rng.range(1, 300) } as usize;
+            let x = base_pw(fam, 3 + rng.below(50), len);
+            let nchars = x.chars().count();
+            let extra: Vec<usize> = (0..3).map(|_| rng.below(nchars as u64) as usize).collect();
+            let vars: Vec<(&'static str, String)> =
+                pw_variants(&x, &extra).into_iter().filter(|(n, _)| *n == "one-char-at-random-position" || *n == "last-char").collect();
+            let mut ops = vec![AOp::CreateUser(Pw(x.clone())), AOp::Verify(0, Pw(x.clone()))];
+            let mut tags = vec![format!("pwlen:{}:{}", fam_name(fam), len_bucket(len)), "pwpair:same-password".to_string()];
+            for (name, q) in &vars {
+                ops.push(AOp::Verify(0, Pw(q.clone())));
+                tags.push(format!("pwpair:{}", name));
+            }
+            jobs.push(PwJob { cfg: Cfg { pepper: i % 2, ..base_cfg.clone() }, ops, tags });
+        }
+    }
+    jobs
+}
+
+type HashJob = (Pw, Option<Vec<u8>>, Vec<(Pw, Option<Vec<u8>>)>, Vec<String>);
+
+/// Pepper sweep on `User::create` / `User::verify` directly: a pepper of every listed length against its near-misses
+/// (one byte changed at the end / start / middle, one byte shorter, one byte longer, no pepper) and a wrong password.
+fn pepper_jobs(thorough: bool) -> Vec<HashJob> {
+    let lens: Vec<usize> = if thorough {
+        [(1..=140).collect::<Vec<usize>>(), vec![255, 256, 257, 258, 511, 512, 513, 1000, 1023, 1024, 1025, 4095, 4096, 4097, 10000]].concat()
+    } else {
+        vec![1, 8, 16, 32, 64, 72, 128, 129, 256, 257, 1000, 4096]
+    };
+    let mut jobs = Vec::new();
+    for (k, len) in lens.iter().enumerate() {
+        let pep = Rng::new(0x9E99_E500 + (k as u64 % 3)).bytes(*len);
+        let pw = if k % 2 == 0 { Pw::pool(0) } else { Pw(base_pw(FAM_ASCII, 1, 130)) };
+        let n = pep.len();
+        let with = |i: usize| -> Vec<u8> {
+            let mut v = pep.clone();
+            v[i] ^= 1;
+            v
+        };
+        let mut cands: Vec<(&str, Option<Vec<u8>>)> = vec![
+            ("same-pepper", Some(pep.clone())),
+            ("last-byte", Some(with(n - 1))),
+            ("first-byte", Some(with(0))),
+            ("append-nul", Some([pep.clone(), vec![0]].concat())),
+            ("append-byte", Some([pep.clone(), vec![b'x']].concat())),
+            ("no-pepper", None),
+        ];
+        if n >= 3 {
+            cands.push(("middle-byte", Some(with(n / 2))));
+        }
+        if n >= 2 {
+            cands.push(("drop-last(proper-prefix)", Some(pep[..n - 1].to_vec())));
+            cands.push(("drop-first(proper-suffix)", Some(pep[1..].to_vec())));
+        }
+        let mut tries: Vec<(Pw, Option<Vec<u8>>)> = Vec::new();
+        let mut tags = vec![format!("peplen:{}", len_bucket(*len))];
+        for (name, c) in cands {
+            if c.as_ref() != Some(&pep) || name == "same-pepper" {
+                tries.push((pw.clone(), c));
+                tags.push(format!("peppair:{}", name));
+            }
+        }
+        let q = pw_variants(&pw.0, &[]).remove(0).1;
+        tries.push((Pw(q), Some(pep.clone())));
+        tags.push("peppair:same-pepper-wrong-password".into());
+        jobs.push((pw, Some(pep), tries, tags));
+    }
+    jobs
+}
+
+/// Near-misses of real tokens / uids (classes T and U): every derivation code, on every operation that takes the
+/// secret, in sequences of `chunk` operations on pool users (no hashing).
+fn secret_sweeps(out: &mut Out, pool: &mut Pool, thorough: bool) {
+    let codes = |n: u64| -> Vec<u64> { (0..n).chain(100..100 + n).chain(200..200 + n).chain(300..310).collect() };
+    let base_cfg = Cfg { pepper: 0, dl: 3600, rl: 3600, now0: 5000 };
+    let chunk = 40;
+    // tokens
+    let bases: &[u64] = if thorough { &[0, 1] } else { &[0] };
+    for kind in 0..4u64 {
+        for base in bases {
+            let cs: Vec<u64> = codes(64).into_iter().filter(|c| kind != 1 || derived_plain(*c)).collect();
+            for (ci, part) in cs.chunks(chunk).enumerate() {
+                // quick: alternate the token the near-misses are derived from
+                let b = if thorough { *base } else { ci as u64 % 2 };
+                let mut ops = vec![AOp::CreateSession(0), AOp::CreateSessionLifetime(1, 50)];
+                for c in part {
+                    let t = derived(b, *c);
+                    ops.push(match kind {
+                        0 => AOp::GetUid(t),
+                        1 => AOp::AuthRoute(Some(t), c % 3),
+                        2 => AOp::Refresh(t),
+                        _ => AOp::Invalidate(t),
+                    });
+                }
+                ops.extend([AOp::GetUid(0), AOp::AuthRoute(Some(1), 0), AOp::Tick(50), AOp::GetUid(derived(1, 100 + 63)), AOp::Refresh(derived(1, 300))]);
+                let pepper = ci as u64 % 2;
+                let cfg = Cfg { pepper, ..base_cfg.clone() };
+                let init = pool.get(pepper, 3);
+                emit(out, &cfg, init, &ops, "T:token-near-miss");
+            }
+        }
+    }
+    // uids
+    let bases: &[u64] = if thorough { &[0, 1, 2] } else { &[1] };
+    for kind in 0..6u64 {
+        for base in bases {
+            for (ci, part) in codes(36).chunks(chunk).enumerate() {
+                let pepper = ci as u64 % 2;
+                let init = pool.get(pepper, 3);
+                let mut ops = vec![AOp::CreateSession(*base)];
+                for c in part {
+                    let u = derived(*base, *c);
+                    ops.push(match kind {
+                        0 => AOp::Exists(u),
+                        1 => AOp::Verify(u, init[*base as usize].1.clone()),
+                        2 => AOp::RemoveUser(u),
+                        3 => AOp::CreateSession(u),
+                        4 => AOp::CreateSessionLifetime(u, 10),
+                        _ => AOp::InvalidateUser(u),
+                    });
+                }
+                ops.extend([AOp::GetUid(0), AOp::Exists(*base)]);
+                let cfg = Cfg { pepper, ..base_cfg.clone() };
+                emit(out, &cfg, init, &ops, "U:uid-near-miss");
+            }
+        }
+    }
+}
+
 pub fn gen(out: &mut Out, thorough: bool, seed: u64) {
     let mut rng = Rng::new(seed ^ 0xC17);
     let mut pool = Pool::new();
@@ -679,6 +1260,30 @@ pub fn gen(out: &mut Out, thorough: bool, seed: u64) {
         out.count(&format!("pepper2={}", r));
         out.case(&["pepper2", &p.to_string(), &p2.to_string(), &pep.to_string(), &pep2.to_string()], &r, true);
     }
+    // class P: long passwords and pairs of different passwords with long common prefixes / suffixes (clock-free
+    // sequences of create_user / verify through the provider, run on several threads)
+    let mut prng = Rng::new(seed ^ 0xC17_9A55);
+    let jobs = pw_jobs(thorough, &mut prng);
+    let results = par_map(&jobs, |j| run_seq_opt(&j.cfg, Vec::new(), &j.ops, false));
+    for (j, (init_s, ops_s, res, kinds)) in jobs.iter().zip(results) {
+        for t in &j.tags {
+            out.count(t);
+        }
+        record(out, &j.cfg, &init_s, &ops_s, &res, &kinds, "P:password-pairs");
+    }
+    // the pepper as a secret: near-miss peppers on the real Argon2
+    let hjobs = pepper_jobs(thorough);
+    let results = par_map(&hjobs, |(pw, pep, tries, _)| hashc(pw, pep, tries));
+    for ((pw, pep, tries, tags), r) in hjobs.iter().zip(results) {
+        for t in tags {
+            out.count(t);
+        }
+        out.count("class=H:pepper-pairs");
+        let f = hashc_fields(pw, pep, tries);
+        out.case(&["hashc", &f[0], &f[1], &f[2]], &r, true);
+    }
+    // classes T / U: near-misses of real tokens and uids
+    secret_sweeps(out, &mut pool, thorough);
     // class A: everything through the provider, users created by create_user (Argon2 on every create / verify)
     let n_a = if thorough { 4000 } else { 400 };
     for _ in 0..n_a {
@@ -700,5 +1305,18 @@ pub fn gen(out: &mut Out, thorough: bool, seed: u64) {
     out.extra.insert(
         "renaming".into(),
         "real uids/tokens renamed to indices by first appearance; format and distinctness checked in the harness (#fmt=)".into(),
+    );
+    // long passwords make long lines: keep the evidence samples readable
+    for smp in out.samples.iter_mut() {
+        if smp.chars().count() > 400 {
+            let n = smp.chars().count();
+            *smp = format!("{}…({} characters)", smp.chars().take(400).collect::<String>(), n);
+        }
+    }
+    out.extra.insert(
+        "secrets".into(),
+        "passwords / peppers are carried in the case line (x + hex of the bytes handed to the real code); index 10000+1000*b+c = \
+         near-miss c of the real token / uid b (derive_secret), checked in the harness to differ from every real one"
+            .into(),
     );
 }
